@@ -152,7 +152,6 @@ return False
 KEEP = '''
 # expand_includes=False: directives are kept as data, in order, and written back unchanged
 s1 = {S1}; s2 = {S2}
-PIPE = tsp.pipe(expand_includes=False)
 tree = PIPE.parse(TEXT, {{'"H1"': '"' + s1 + '"', "'H2'": "'" + s2 + "'"}})
 d = M.transform(tree)
 lines = PP._format(d)
@@ -163,6 +162,7 @@ return d["include"] == [s1, s2] and d["layers"][0]["include"] == [s2] and lines 
 KEEP_PRE = '''
 from mappyfile.transformer import MapfileToDict
 M = MapfileToDict()
+PIPE = tsp.pipe(expand_includes=False)       # built at import time, outside tracing
 PP = tsp.printer(["map", "layer"], indent=4, quote='"')
 TEXT = """MAP
   INCLUDE "H1"
@@ -215,13 +215,19 @@ INFO = {
 def obligations(tier, seed):
     obs = []
     tag = lambda n, k: f"({n} >= 0) & ({n} < {k})"
-    for d2 in (0, 1):
-        params = [("d1", "bool"), ("d2", "bool"), ("n1", "int"), ("n2", "int"), ("kw", "int"), ("ws", "int"), ("qs", "int"), ("tr", "int"),
-                  ("crlf", "bool"), ("nest", "bool"), ("kw2", "int"), ("ws2", "int"), ("qs2", "int"), ("tr2", "int"), ("tailnl", "bool")]
-        pre = conj([tag("n1", 6), tag("n2", 6), tag("kw", 4), tag("ws", 4), tag("qs", 3), tag("tr", 5), tag("kw2", 4), tag("ws2", 4), tag("qs2", 3), tag("tr2", 5),
-                    "d2" if d2 else "not d2"] + (["(kw2 == 0) & (ws2 == 0) & (tr2 == 0)"] if tier == "quick" else []))
-        obs.append(Ob(name=f"C15-SUB/d2={d2}", source=PRELUDE + harness("h", params, pre, SUB), pct=900, timeout=1000,
-                      meta={"desc": "load_includes == reference textual substitution over directive spellings / which lines are directives / nesting",
+    import random
+    rnd = random.Random(seed)
+    combos = [(i % 4, (i * 3 + 1) % 4, i % 3, i % 5, i % 2, (i + 1) % 4, (i + 2) % 3, (i + 3) % 5) for i in range(12 if tier == "quick" else 20)]
+    if tier != "quick":
+        combos += [(rnd.randrange(4), rnd.randrange(4), rnd.randrange(3), rnd.randrange(5), rnd.randrange(2), rnd.randrange(4), rnd.randrange(3), rnd.randrange(5)) for _ in range(40)]
+    for ci, (kw, ws, qs, tr, crlf, kw2, qs2, tr2) in enumerate(combos):
+        # the directive spelling is fixed per obligation (generator-enumerated); which lines are directives, which files they name and
+        # whether an included file includes another stay symbolic
+        params = [("d1", "bool"), ("d2", "bool"), ("n1", "int"), ("n2", "int"), ("nest", "bool"), ("tailnl", "bool")]
+        pre = conj([tag("n1", 6), tag("n2", 6)])
+        defs = f"kw, ws, qs, tr, crlf, kw2, ws2, qs2, tr2 = {kw}, {ws}, {qs}, {tr}, {bool(crlf)}, {kw2}, {(ws + 1) % 4}, {qs2}, {tr2}\n"
+        obs.append(Ob(name=f"C15-SUB/spelling{ci}", source=PRELUDE + defs + harness("h", params, pre, SUB), pct=600, timeout=700,
+                      meta={"desc": f"load_includes == reference textual substitution; spelling kw={kw} ws={ws} quote={qs} trailer={tr} crlf={crlf}; tree shape symbolic",
                             "stubs": ["open_file table"], "functions": ["Parser.load_includes", "Parser._get_include_filename"]}))
     obs.append(Ob(name="C15-DEPTH", source=PRELUDE + harness("h", [("n", "int"), ("cyc", "bool"), ("back", "int")], "(n >= 0) & (n <= 8) & (back >= 0) & (back < 8) & (back < n)", DEPTH),
                   pct=600, timeout=700, meta={"desc": "chain length 0..8 and cycles: expands iff <= 5 deep, else ValueError", "functions": ["Parser.load_includes"]}))
